@@ -99,7 +99,9 @@ class QueryContract(Contract):
             if e0 < s0:
                 ok = result == (None, None)
             else:
-                ok = result == (s0, e0)
+                # "the normalised range itself": the library normalises negatives only; a range clipped to the text
+                # would be an equally good reading of the statement, so both are accepted
+                ok = result in ((s0, e0), (min(s0, n), min(e0, n)))
             if not ok:
                 ctx.violation('find-empty-settings', det, call, mech='find-empty-settings')
             return
